@@ -21,7 +21,7 @@ META = {
     "harness_bins": ["nkeval"],
     "extract": "C08.v",
     "technique": "Coq proof on a mechanism-shaped model of pending contracts (arrays = (elements, pending_contracts), fields with pending contracts, primitives building closures exactly where operation.rs does): per-primitive pending_tracked lemmas + pipeline composition; a step-indexed logical relation between two runs that differ at one marked component and in how/with which labels the obligations are stored gives, for every pipeline of the 54 supported observers; a pending list guards like the conjunction of its contracts and only the set of (flat) contracts of a stack is observable and every fuel, laziness (bottom_insensitive), blames-iff-reached and annotated-run = unannotated-run when not reached; refutation lemmas for two deliberately broken primitives and for the blame label after ArrayConcat. The model is tied to nickel by differential runs of generated `observe (v | T)` programs (extracted model vs nkeval, annotated and unannotated) with an independent reach-table oracle on the implementation",
-    "level_text": "Theorems (coq/Props/C08.v, 38 statements, closed under the global context) quantify over every container literal, position, annotation of the stated families, every pipeline (any length and nesting) of the supported observers, every fuel: (T0) each primitive delivers every component under its obligations and this composes along pipelines; (T0) a violating component is blamed iff the observation marker put in its place in the *unannotated* run comes out, otherwise the annotated run equals the unannotated one; (T0) an unreached component can be replaced by anything, e.g. a failing one, without changing the outcome; (T1) $func wraps every call; the closed index-arithmetic reach table for single observers agrees with the marker semantics. Outcomes are compared up to the polarity of a blame (the faithful model refutes the exact-label statement: C08_concat_label_refuted, reproduced on nickel as a known finding). The model is hand-written from operation.rs / record.rs / merge.rs / internals.ncl / std.ncl; the tie is the correspondence run (same generated programs on the extracted model and on nickel built from /repo) plus the direct oracle (Python reach table; annotated vs unannotated run).",
+    "level_text": "Theorems (coq/Props/C08.v, 40 statements, closed under the global context) quantify over every container literal, position, annotation of the stated families, every pipeline (any length and nesting) of the supported observers, every fuel: (T0) each primitive delivers every component under its obligations and this composes along pipelines; (T0) a violating component is blamed iff the observation marker put in its place in the *unannotated* run comes out, otherwise the annotated run equals the unannotated one; (T0) an unreached component can be replaced by anything, e.g. a failing one, without changing the outcome; (T1) $func wraps every call; the closed index-arithmetic reach table for single observers agrees with the marker semantics. Outcomes of whole pipelines are compared up to the polarity of a blame; at the primitive level the labels are exact (C08_pending_tracked_concat: every element of a concatenation keeps the pending list of its own operand; the pre-95e63eb ArrayConcat is refuted: C08_concat_prefix_label_refuted - that defect was found by this check and is fixed). The model is hand-written from operation.rs / record.rs / merge.rs / internals.ncl / std.ncl; the tie is the correspondence run (same generated programs on the extracted model and on nickel built from /repo) plus the direct oracle (Python reach table; annotated vs unannotated run).",
     "level_note": "Trusted: Coq kernel; extraction (ExtrOcamlBasic, ExtrOcamlNativeString); the hand-written model's reading of the Rust/Nickel sources; the generator, Nickel printer and Python reach table. Partial: record merge (`&`) is modelled and generated but outside the theorems (a merged field is `(x & y) | contracts`, the merge inspects x before the check); the blames-iff-reached theorems need the annotation to check every component against Number with the listed names = the record's fields (wf_case), a record type / open record contract that reorders the fields changes the order in which `==` visits them (covered by the correspondence only); function containers have their own theorems (func_wraps_call, func_domain_blames_iff_forced). Not modelled: thunk sharing/memoisation, environments, labels other than polarity, contract deduplication (push_dedup modelled as push), optional/undefined fields, the sealing contracts attached by the stdlib's polymorphic static types (C11), sort/generate/partition, array merge, non-integer numbers.",
 }
 
@@ -1389,7 +1389,9 @@ def run_cases(ck, cases, exe_model, impl_model_exe=None):
                 key = "stack:%s:%s/%s:" % (c["fam"], c["style"], c["state"]) + "+".join(sorted(set(flat_obs(c["o"]))))
             if (c.get("entry") == "dom" and viol and pr is True and c["special"] != FAIL and a == "ERR Blame+"
                     and any(x in ("concatl", "concatr") for x in flat_obs(c["o"]))):
-                # the component is blamed, but with the label of the other operand of `@`
+                # the component is blamed, but with the label of the other operand of `@`: this was the
+                # known finding concat-keeps-left-labels, fixed in 95e63eb; it must hold now, so a
+                # recurrence is reported like any other violation (the stable key is kept for reference)
                 key = "concat-keeps-left-labels"
             ck.violation(key, direct_bad, replay)
         # ---- model vs implementation
